@@ -271,7 +271,7 @@ func (st *c32state) exec(c *Ctx, line string) (string, string, []c32fail) {
 				case !lostOK:
 					fails = append(fails, c32fail{"read:wrong-bytes", fmt.Sprintf("%s buffered branch copied bytes that are not the next %d bytes of the stream at %d", st.tag, consumed, me.pos)})
 				case n == 0 && consumed > 0:
-					// copied into the caller's buffer, dropped from recvBuffer, but reported as n = 0
+					// (F18, fixed in a002565b) copied into the caller's buffer, dropped from recvBuffer, but reported as n = 0
 					c.Count("oracle/F18-lost-bytes")
 					fails = append(fails, c32fail{"SecretConnection.Read:buffered-branch-returns-n=0", fmt.Sprintf("%s Read(len %d) with %d bytes buffered: copied %d stream bytes (%s…) into the buffer, removed them from recvBuffer, returned n=0 err=nil — the caller loses them", st.tag, l, b0, consumed, c32hex(dirty[:minInt32(len(dirty), 8)]))})
 				case n != consumed:
